@@ -267,6 +267,8 @@ def criteria_job(chk):
 def run(chk):
     core.run_jobs(chk, jobs(chk))      # (Criteria.tla and the private _arburg2 are replayed by X07: not part of C13)
     obs_events(chk)
+    from .. import session
+    session.run_for(chk, 'C13')      # Session.tla: results do not depend on earlier calls
 
 
 def replay_case(chk, sig, case):
